@@ -23,6 +23,7 @@ import (
 	_ "github.com/go-python/gpython/zzverif/engines/imports"
 	_ "github.com/go-python/gpython/zzverif/engines/lifecycle"
 	_ "github.com/go-python/gpython/zzverif/engines/compiledet"
+	_ "github.com/go-python/gpython/zzverif/engines/repl"
 	_ "github.com/go-python/gpython/zzverif/engines/scope"
 	_ "github.com/go-python/gpython/zzverif/engines/srcfault"
 )
@@ -42,6 +43,7 @@ var props = map[string]propCfg{
 	"C11": {Engines: []string{"srcfault"}, QuickRuns: 400000, QuickSecs: 60, ThoroughRuns: 20000000, ThoroughSecs: 1200, Level: "fault_enumeration"},
 	"C05": {Engines: []string{"gens"}, QuickRuns: 30000, QuickSecs: 60, ThoroughRuns: 3000000, ThoroughSecs: 1200, Level: "exploration"},
 	"C19": {Engines: []string{"imports"}, QuickRuns: 20000, QuickSecs: 60, ThoroughRuns: 2000000, ThoroughSecs: 1200, Level: "exploration"},
+	"C20": {Engines: []string{"repl"}, QuickRuns: 20000, QuickSecs: 60, ThoroughRuns: 2000000, ThoroughSecs: 1200, Level: "exploration"},
 	"C09": {Engines: []string{"lifecycle"}, QuickRuns: 40000, QuickSecs: 40, ThoroughRuns: 3000000, ThoroughSecs: 900, Level: "exploration"},
 }
 
